@@ -36,6 +36,10 @@ CHECK_DEADLOCK FALSE
 def model_check(quick):
     mm, mi = (4, 2) if quick else (6, 2)
     r = tlc.require_ok(tlc.run("MC_Graph.tla", _cfg(mm, mi), workers=16, timeout=3000), "model checking MC_Graph")
+    if not quick:      # thorough: also every list of three imports over module lists of up to four (2.5 M states)
+        r3 = tlc.require_ok(tlc.run("MC_Graph.tla", _cfg(4, 3), workers=16, timeout=3000), "model checking MC_Graph (4, 3)")
+        r.distinct += r3.distinct
+        r.generated += r3.generated
     # sensitivity: the linking order before repair 2892f96 must be refuted, and some build must fold an import
     old = tlc.run("MC_Graph.tla", _cfg(3, 1, parents_first=False), workers=4, timeout=600)
     if "BuildsExpected" not in old.violated:
